@@ -2,6 +2,6 @@ package main
 
 func init() {
 	reg(propDef{ID: "C13", Test: "TestC13", Level: "exploration", Shards: [2]int{12, 16}, CapMin: [2]int{10, 60},
-		Rule: "cases = PRNG(seed): (a) vt scripts: 1-4 sockets at once (12 protocols, listener or dialer side, each wrapped in a recording ProtocolBase), 4-12 connections each with a planned action per connection (ok, peer drop, Pipe.Close later, hook closes in Attaching, hook closes in Attached, protocol wrapper refuses, second PAIR peer), yield points on in half the cases; (b) the same over real transports (inproc tcp ipc ws tls+tcp wss) with a redialling client; (c) read-only pipe options per transport. Online monitor in the event hook + wrapper: per-pipe automaton Attaching (Attached Detached)?, protocol add/remove pairing, process-wide live-id set, ids released at the end (allocator hook). After every rejection a fresh connection must reach Attached (stuck detector). non-trivial = all; distinct = (protocols, sides, action strings)",
+		Rule:   "cases = PRNG(seed): (a) vt scripts: 1-4 sockets at once (12 protocols, listener or dialer side, each wrapped in a recording ProtocolBase), 4-12 connections each with a planned action per connection (ok, peer drop, Pipe.Close later, hook closes in Attaching, hook closes in Attached, protocol wrapper refuses, second PAIR peer), yield points on in half the cases; (b) the same over real transports (inproc tcp ipc ws tls+tcp wss) with a redialling client; (c) read-only pipe options per transport. Online monitor in the event hook + wrapper: per-pipe automaton Attaching (Attached Detached)?, protocol add/remove pairing, process-wide live-id set, ids released at the end (allocator hook). After every rejection a fresh connection must reach Attached (stuck detector). non-trivial = all; distinct = (protocols, sides, action strings)",
 		Assume: commonAssume})
 }
